@@ -201,20 +201,42 @@ func VerifHarness_C16_independent() {
 // (B with symbolic options), under the engine's happens-before race detector: no heap cell or map may be
 // accessed by both goroutines with at least one write and no synchronisation in between - i.e. the pairs share
 // no mutable state - on every schedule within the delay bound; and each pair decodes what it encoded.
+// verifComplexTraces / verifComplexLogs: the fixed inputs plus a map- and a slice-valued attribute (and a map
+// body), which are serialised as CBOR by the encoder.
+func verifComplexTraces(seed int, rich bool, owner string) ptrace.Traces {
+	td := verifFixedTraces(seed, rich)
+	sp := td.ResourceSpans().At(0).ScopeSpans().At(0).Spans().At(0)
+	sp.Attributes().PutEmptyMap("cm").PutStr("owner", owner)
+	sp.Attributes().PutEmptySlice("cs").AppendEmpty().SetStr(owner)
+	return td
+}
+
+func verifComplexLogs(seed int, rich bool, owner string) plog.Logs {
+	ld := verifFixedLogs(seed, rich)
+	lr := ld.ResourceLogs().At(0).ScopeLogs().At(0).LogRecords().At(0)
+	lr.Body().SetEmptyMap().PutStr("owner", owner)
+	lr.Attributes().PutEmptyMap("cm").PutStr("owner", owner)
+	return ld
+}
+
 func VerifHarness_C16_race() {
 	rt.RaceBegin()
 	opt := rt.Int("optionsOfB")
 	rt.Assume(opt >= 0)
-	rt.Assume(opt <= 3)
+	rt.Assume(opt <= 4)
+	optA := 0
+	if rt.Bool("aUsesAttrOrderOption") {
+		optA = 4
+	}
 	richA, richB := rt.Bool("richA"), rt.Bool("richB")
 	var wg sync.WaitGroup
 	wg.Add(2)
 	go func() {
 		defer wg.Done()
-		pa, ca := verifProducer(), verifConsumer()
+		pa, ca := verifProducerOpt(optA), verifConsumer()
 		for b := 0; b < 2; b++ {
-			verifRoundTrip(pa, ca, verifFixedTraces(b, richA || b == 1), "C16.A")
-			verifRoundTripLogs(pa, ca, verifFixedLogs(b, richA || b == 1), "C16.A")
+			verifRoundTrip(pa, ca, verifComplexTraces(b, richA || b == 1, "A"), "C16.A")
+			verifRoundTripLogs(pa, ca, verifComplexLogs(b, richA || b == 1, "A"), "C16.A")
 			verifRoundTripMetrics(pa, ca, verifFixedMetrics(b, richA || b == 1), "C16.A")
 		}
 		_ = pa.Close()
@@ -224,8 +246,8 @@ func VerifHarness_C16_race() {
 		defer wg.Done()
 		pb, cb := verifProducerOpt(opt), verifConsumer()
 		for b := 0; b < 2; b++ {
-			verifRoundTrip(pb, cb, verifFixedTraces(10+b, richB), "C16.B")
-			verifRoundTripLogs(pb, cb, verifFixedLogs(10+b, richB), "C16.B")
+			verifRoundTrip(pb, cb, verifComplexTraces(10+b, richB, "B"), "C16.B")
+			verifRoundTripLogs(pb, cb, verifComplexLogs(10+b, richB, "B"), "C16.B")
 			verifRoundTripMetrics(pb, cb, verifFixedMetrics(10+b, richB), "C16.B")
 		}
 		_ = pb.Close()
